@@ -71,7 +71,7 @@ impl Property for C18 {
          oracle = the generated instance itself: polynomials by id, equality kinds, id sets, value domains of the variables that occur with non-zero coefficient; non-trivial = >=1 integer or binary variable and >=1 variable without a finite lower bound; distinct = sha256(instance)"
     }
     fn required_labels(&self) -> Vec<String> {
-        ["bound-absent", "binary-no-bound", "neg-bound", "constant-only-constraint", "maximize", "nonlinear-objective", "nonlinear-constraint", "noncontiguous-ids", "removed-constraint", "half-infinite", "unused-variable", "integer-variable", "unsorted-terms", "huge-finite-bound", "sweep=big-dense", "multi-line-description"].iter().map(|s| s.to_string()).collect()
+        ["bound-absent", "binary-no-bound", "neg-bound", "constant-only-constraint", "maximize", "nonlinear-objective", "nonlinear-constraint", "noncontiguous-ids", "removed-constraint", "half-infinite", "unused-variable", "integer-variable", "unsorted-terms", "huge-finite-bound", "sweep=big-dense", "multi-line-description", "file-name-without-.mps.gz", "linear-write-after-refused-write-to-the-same-path"].iter().map(|s| s.to_string()).collect()
     }
     fn cases(&self, tier: Tier) -> usize {
         match tier {
@@ -143,7 +143,7 @@ impl Property for C18 {
             inst.constraints.push(c);
         }
         let used: BTreeSet<u64> = ids.iter().copied().collect();
-        check_roundtrip(&inst, &used, false)
+        check_roundtrip(&inst, &used, false, i as u8, None)
     }
 
     fn run(&self, t: &mut Tape, ctx: &mut Ctx) -> PResult {
@@ -300,14 +300,16 @@ impl Property for C18 {
         let is_nl_obj = nonlinear == 1;
         let is_nl_con = nonlinear == 2 && nl_target.is_some();
         if !(is_nl_obj || is_nl_con) {
-            return check_roundtrip(&inst, &used, true);
+            if shuffle_seed[3] % 6 != 0 {
+                ctx.label("file-name-without-.mps.gz");
+            }
+            return check_roundtrip(&inst, &used, true, shuffle_seed[3], None);
         }
         let dir = std::path::Path::new("/verif/target/tmp");
         let _ = std::fs::create_dir_all(dir);
         let path = dir.join(format!("c18-{}-{}.mps.gz", std::process::id(), COUNTER.fetch_add(1, Ordering::SeqCst)));
         let w = ommx::mps::write_file(&inst, &path);
-        {
-            let _ = std::fs::remove_file(&path);
+        let refusal: PResult = {
             match w {
                 Ok(()) => fail(if is_nl_obj { "C18/nonlinear-objective-accepted" } else { "C18/nonlinear-constraint-accepted" }, format!("write_file accepted a nonlinear instance: {}", what())),
                 Err(e) => {
@@ -326,17 +328,35 @@ impl Property for C18 {
                     }
                 }
             }
+        };
+        if refusal.is_err() || shuffle_seed[4] % 2 == 0 {
+            let _ = std::fs::remove_file(&path);
+            return refusal;
         }
+        // the refused attempt must not stand in the way of the next, legitimate write to the same path
+        ctx.label("linear-write-after-refused-write-to-the-same-path");
+        let lin = gi.inst.clone();
+        let mut used_lin = BTreeSet::new();
+        for f in lin.objective.iter().chain(lin.constraints.iter().filter_map(|c| c.function.as_ref())) {
+            for (ids, c) in raw_terms(f) {
+                if c != 0.0 {
+                    used_lin.extend(ids);
+                }
+            }
+        }
+        check_roundtrip(&lin, &used_lin, true, 0, Some(path))
     }
 }
 
 /// write `inst` as MPS, load it back, compare (`show_text`: include the written file in a failure report)
-fn check_roundtrip(inst: &v1::Instance, used: &BTreeSet<u64>, show_text: bool) -> PResult {
+fn check_roundtrip(inst: &v1::Instance, used: &BTreeSet<u64>, show_text: bool, style: u8, at: Option<std::path::PathBuf>) -> PResult {
     {
         let what = || if show_text { format!("instance {}", describe_inst(inst)) } else { format!("instance with {} variables, {} constraints", inst.decision_variables.len(), inst.constraints.len()) };
         let dir = std::path::Path::new("/verif/target/tmp");
         let _ = std::fs::create_dir_all(dir);
-        let path = dir.join(format!("c18-{}-{}.mps.gz", std::process::id(), COUNTER.fetch_add(1, Ordering::SeqCst)));
+        // write_file and load_file belong together whatever the file is called
+        let ext = [".mps.gz", ".mps", "", ".gz", ".MPS", ".txt"][style as usize % 6];
+        let path = at.unwrap_or_else(|| dir.join(format!("c18-{}-{}{ext}", std::process::id(), COUNTER.fetch_add(1, Ordering::SeqCst))));
         let w = ommx::mps::write_file(inst, &path);
         if let Err(e) = w {
             let _ = std::fs::remove_file(&path);
